@@ -46,16 +46,25 @@ type Op struct {
 	Message string
 	// concurrent: this op and the next N-1 ops run from separate goroutines
 	Par int
+	// Inside (on open / change): the downstream server publishes Diags for the generated file it was just given
+	// from another goroutine BEFORE its didOpen / didChange handler returns (gopls may answer that fast); the
+	// events of that publication are logged as an op of their own after the reply of the open / change
+	Inside bool
 }
 
 var (
-	mu  sync.Mutex
-	out = bufio.NewWriter(os.Stdout)
+	mu   sync.Mutex
+	out  = bufio.NewWriter(os.Stdout)
+	side *[]string // while set, events are collected here instead of being written
 )
 
 func emit(format string, a ...any) {
 	mu.Lock()
-	fmt.Fprintf(out, format+"\n", a...)
+	if side != nil {
+		*side = append(*side, fmt.Sprintf(format, a...))
+	} else {
+		fmt.Fprintf(out, format+"\n", a...)
+	}
 	mu.Unlock()
 }
 
@@ -73,10 +82,46 @@ func toRange(r Rng) protocol.Range {
 type down struct {
 	protocol.Server // nil: any method not overridden panics (recovered by the driver)
 	cur             *Op
+	cli             *proxy.Client
+	inside          *Op      // the open / change op whose handler publishes before it returns
+	insideLog       []string // events of that publication
+}
+
+// publishInside: the publication a fast language server makes for the text it was just given, delivered on the
+// downstream connection (another goroutine) while the proxy is still inside its own didOpen / didChange.
+func (d *down) publishInside(uri protocol.DocumentURI) {
+	op := d.inside
+	if op == nil {
+		return
+	}
+	d.inside = nil
+	mu.Lock()
+	side = &d.insideLog
+	mu.Unlock()
+	done := make(chan struct{})
+	go func() {
+		defer close(done)
+		defer func() {
+			if r := recover(); r != nil {
+				emit("R panic %v", r)
+			}
+		}()
+		var ds []protocol.Diagnostic
+		for _, x := range op.Diags {
+			ds = append(ds, protocol.Diagnostic{Range: toRange(x.R), Message: x.Msg, Source: "compiler"})
+		}
+		err := d.cli.PublishDiagnostics(context.Background(), &protocol.PublishDiagnosticsParams{URI: uri, Diagnostics: ds})
+		emit("R pubdiag err=%v", err != nil)
+	}()
+	<-done
+	mu.Lock()
+	side = nil
+	mu.Unlock()
 }
 
 func (d *down) DidOpen(_ context.Context, p *protocol.DidOpenTextDocumentParams) error {
 	emit("D didOpen %s v=%d lang=%s text=%s", p.TextDocument.URI, p.TextDocument.Version, p.TextDocument.LanguageID, hx(p.TextDocument.Text))
+	d.publishInside(p.TextDocument.URI)
 	return nil
 }
 func (d *down) DidChange(_ context.Context, p *protocol.DidChangeTextDocumentParams) error {
@@ -89,6 +134,7 @@ func (d *down) DidChange(_ context.Context, p *protocol.DidChangeTextDocumentPar
 		ts = append(ts, r+"="+hx(c.Text))
 	}
 	emit("D didChange %s v=%d id=%s changes=%s", p.TextDocument.URI, p.TextDocument.Version, p.TextDocument.TextDocumentIdentifier.URI, strings.Join(ts, ","))
+	d.publishInside(p.TextDocument.URI)
 	return nil
 }
 func (d *down) DidClose(_ context.Context, p *protocol.DidCloseTextDocumentParams) error {
@@ -269,6 +315,16 @@ func run(srv *proxy.Server, cli *proxy.Client, d *down, op *Op) {
 	ctx := context.Background()
 	uri := protocol.DocumentURI(op.URI)
 	tdp := protocol.TextDocumentPositionParams{TextDocument: protocol.TextDocumentIdentifier{URI: uri}, Position: protocol.Position{Line: op.Line, Character: op.Char}}
+	if op.Inside && (op.Op == "open" || op.Op == "change") {
+		d.inside, d.insideLog = op, nil
+		defer func() {
+			d.inside = nil
+			emit("# op inside")
+			for _, l := range d.insideLog {
+				emit("%s", l)
+			}
+		}()
+	}
 	switch op.Op {
 	case "open":
 		err := srv.DidOpen(ctx, &protocol.DidOpenTextDocumentParams{TextDocument: protocol.TextDocumentItem{URI: uri, LanguageID: "goht", Version: op.Version, Text: op.Text}})
@@ -431,6 +487,7 @@ func main() {
 	ed := &editor{}
 	srv := proxy.NewServer(d, ed, smc, dc, srcs, lg)
 	cli := proxy.NewClient(ed, smc, dc, lg)
+	d.cli = cli
 	for i := 0; i < len(ops); i++ {
 		op := &ops[i]
 		if op.Par > 1 && i+op.Par <= len(ops) {
